@@ -32,4 +32,14 @@ CHECKS["C15"] = {
             "shortest-digit minimality is checked per double (model self-check + python oracle), not proved for all doubles.",
     "design_ref": "DESIGN.md §4 C15",
 }
+CHECKS["C16"] = {
+    "technique": "Lean 4 proof over M-Json (structural induction over all documents/values) + differential correspondence through the five JSON entry points with python's json as the conforming parser",
+    "text": "host_roundtrip (toJson (fromJson d) = d for every document with finite numbers), script_read_back (every member is found under the key spelling a script uses, for every key text), "
+            "key_canon/propertyKey_injective (canonicalisation loses nothing, no collisions), stringify_wellformed and omitted_members are Lean theorems for all inputs. The model (incl. its own JSON "
+            "parser/printer and string escaping) is compared with JSON.parse, JSON.stringify (with and without indent), api::create_from_json, js_value_to_json and a script-side walk on random documents, "
+            "key spellings, escape forms over all Unicode planes, script-built values with undefined/functions/symbols/non-finite numbers, and cyclic values.",
+    "note": "Modelled, not verified: serde_json's text printer/parser (trusted parameter, compared differentially); object member order is ignored; nesting beyond serde_json's limit of 128 is refused with a SyntaxError (documented limit); "
+            "cycle refusal is checked on the implementation only (the model covers acyclic values).",
+    "design_ref": "DESIGN.md §4 C16",
+}
 NOT_YET = {}
